@@ -9,7 +9,8 @@ THEOREMS = ["AcqVerif.Channel.Translated.%s" % t for t in (
     "cursor_cmp_gt", "reader_min_spec", "get_available_byte_count_eq", "next_write_eq", "channel_write_map_eq",
     "channel_write_unmap_eq", "channel_abort_write_eq", "channel_accept_writes_eq", "reader_initialize_eq",
     "channel_read_map_eq", "channel_read_map_notifies_iff", "channel_read_unmap_eq")] + [
-    "AcqVerif.Channel.Refine.%s" % t for t in ("refine_step", "refine_run", "refine_history", "write_region_in_buffer", "read_map_translated")]
+    "AcqVerif.Channel.Refine.%s" % t for t in ("refine_step", "refine_run", "refine_history", "write_region_in_buffer", "read_map_translated",
+                                               "write_avoids_mapped_readers", "status_stays_ok")]
 NEEDED = ("cursor_cmp", "reader_min", "next_write", "get_available_byte_count", "reader_initialize", "channel_write_map",
           "channel_write_unmap", "channel_abort_write", "channel_accept_writes", "channel_read_map", "channel_read_unmap")
 
